@@ -22,7 +22,8 @@ ASSUMPTIONS = [
     "a name is never placed in two header positions at once (RFC 7515 7.2.1 requires the positions to be disjoint; the statement is silent)",
 ]
 NAMES = c16.HEADER_NAMES
-EXTRAS = [None, {"foo": ("str", False)}, {"foo": ("int", True)}, {"foo": ("list[str]", False)}, {"foo": ("bool", True)}, {"foo": ("jwk", False)}]
+EXTRAS = [None, {"foo": ("str", False)}, {"foo": ("int", True)}, {"kid": ("str", True)}, {"typ": ("int", False)}, {"foo": ("list[str]", False)},
+          {"foo": ("bool", True)}, {"foo": ("jwk", False)}]
 TMAP = {"str": RH.STR, "int": RH.INT, "list[str]": RH.LIST_STR, "bool": RH.BOOL, "jwk": RH.OBJ}
 GOOD = {"str": "x", "int": 7, "list[str]": ["a"], "bool": True, "jwk": {"kty": "oct", "k": "AA"}}
 
@@ -42,12 +43,19 @@ def mk_registry(kind, path, strict, extra, algs):
     return JWSRegistry(header_registry=hr, algorithms=algs, strict_check_header=strict)
 
 
+def vals():
+    if config.thorough():
+        return c16.values()
+    # quick tier: one or two representatives of every JSON type (the validators are type tests)
+    return [None, True, False, 0, 8, 1.5, "", "a", "https://x", [], ["a"], ["b64"], [1], [[]], {}, {"kty": "oct", "k": "AA"}, 2 ** 31]
+
+
 def mutate(ctx, prot, unprot, rhdr, positions, names):
     """Single substitution / deletion / crit variant. -> description or None"""
     kind = ctx.choose("edit", ["member", "delete", "crit"])
     if kind == "member":
         name = ctx.choose("name", names)
-        v = ctx.choose("value", c16.values())
+        v = ctx.choose("value", vals())
         pos = ctx.choose("position", positions)
         if any(name in d for d in (prot, unprot or {}, rhdr or {})):
             # replace where it is; never in two positions
@@ -79,7 +87,7 @@ def h_jws(ctx):
     path = ctx.choose("path", c16.JWS_PATHS)
     direction = ctx.choose("direction", ["produce", "consume"])
     strict = ctx.choose("strict", [True, False])
-    extra = ctx.choose("caller_registered", EXTRAS if config.thorough() else EXTRAS[:4])
+    extra = ctx.choose("caller_registered", EXTRAS if config.thorough() else EXTRAS[:5])
     json_path = path in ("flattened", "general", "7797-flattened")
     prot = {"alg": alg, "typ": "JOSE"}
     unprot = {} if json_path else None
@@ -89,6 +97,8 @@ def h_jws(ctx):
         n, (t, req) = next(iter(extra.items()))
         if ctx.choose("registered_param_given", [True, False]):
             prot[n] = GOOD[t]
+        elif n in prot:
+            prot.pop(n)
     positions = ["protected"] + (["unprotected"] if json_path else [])
     desc = "base"
     if ctx.deviate("mutated", [False, True]):
@@ -165,7 +175,7 @@ def h_jwe(ctx):
     form = ctx.choose("form", ["compact", "flattened", "general"])
     direction = ctx.choose("direction", ["produce", "consume"])
     strict = ctx.choose("strict", [True, False])
-    extra = ctx.choose("caller_registered", EXTRAS[:3] if config.thorough() else EXTRAS[:2])
+    extra = ctx.choose("caller_registered", [EXTRAS[0], EXTRAS[1], EXTRAS[2], EXTRAS[3]] if config.thorough() else [EXTRAS[0], EXTRAS[1], EXTRAS[3]])
     t = c16.jwe_seed(alg, kind, enc, form)
     prot = dict(t["protected"])
     rhdr = dict(t["recipients"][0][0] or {})
@@ -179,6 +189,8 @@ def h_jwe(ctx):
         n, (ty, req) = next(iter(extra.items()))
         if ctx.choose("registered_param_given", [True, False]):
             prot[n] = GOOD[ty]
+        elif n in prot:
+            prot.pop(n)
     positions = ["protected"] + (["unprotected", "recipient"] if form != "compact" else [])
     desc = "base"
     if ctx.deviate("mutated", [False, True]):
